@@ -185,13 +185,37 @@ static std::string runCase(const J& c, Env& env) {
     return o + "}\n";
 }
 
+// the essentials of the sanitizer report of a dead child (log files $C18_SANLOG/{asan,ubsan}.<pid>; pids are reused,
+// so the report is read - and removed - as soon as the child is gone)
+static std::string sanReport(pid_t pid) {
+    const char* dir = getenv("C18_SANLOG");
+    if (!dir) return "";
+    std::string out;
+    for (const char* kind : { "asan", "ubsan" }) {
+        const std::string path = std::string(dir) + "/" + kind + "." + std::to_string((long)pid);
+        {
+            std::ifstream f(path);
+            if (!f) continue;
+            std::string line;
+            while (std::getline(f, line) && out.size() < 1500) {
+                if (line.find("ERROR:") != std::string::npos || line.find("SUMMARY:") != std::string::npos || line.find("runtime error:") != std::string::npos ||
+                    line.find("NumberTo") != std::string::npos || line.find(" #1 ") != std::string::npos || line.find("WRITE of") != std::string::npos)
+                    out += line.substr(0, 220) + " | ";
+            }
+        }
+        unlink(path.c_str());
+    }
+    for (char& c : out) if ((unsigned char)c < 0x20 || (unsigned char)c > 0x7e) c = '?';
+    return out;
+}
+
 // what the parent prints for a case whose child died
 static std::string crashEvent(const J& c, const std::string& how, pid_t pid) {
     std::string o = "{\"e\":\"Conv\",\"dir\":" + jstr(c.str("dir"));
     if (c.has("in")) o += ",\"in\":" + cpsJson(c.at("in"));
     if (c.has("arg")) o += ",\"arg\":" + jstr(c.str("arg"));
     if (c.has("bits")) o += ",\"bits\":" + w4(fromHex(c.str("bits")));
-    return o + ",\"crash\":" + jstr(how) + ",\"pid\":" + std::to_string((long)pid) + "}\n";
+    return o + ",\"crash\":" + jstr(how) + ",\"report\":" + jstr(sanReport(pid)) + "}\n";
 }
 static void writeAll(int fd, const std::string& s) {
     size_t off = 0;
